@@ -51,6 +51,8 @@ type cluster struct {
 	log     []string
 }
 
+func clPre(scn string) bool { return strings.Contains(scn, "pre=1") }
+
 func clParse(scn string) (n, budget int, faults bool) {
 	n, budget = 2, 3
 	for _, kv := range strings.Split(scn, ";") {
@@ -669,8 +671,35 @@ func (cl *cluster) closure() {
 			}
 		}
 		cl.settle()
-		// whatever is still in flight is lost: the statement promises agreement after a
-		// state sync whatever was delivered, duplicated or lost before
+		// Intents about members that are down and still in flight are lost: for departed
+		// members the statement promises agreement after a state sync whatever was
+		// delivered before. Claims about a member that is up do arrive (at it and at the
+		// others): serf's refutation of a wrong leave relies on gossip reaching its subject.
+		for _, a := range cl.nodes {
+			for _, m := range cl.sortedOutbox(a) {
+				subj := ""
+				switch m[0] {
+				case serf.VMsgJoin:
+					var j serf.VMessageJoin
+					serf.VDecode([]byte(m)[1:], &j)
+					subj = j.Node
+				case serf.VMsgLeave:
+					var l serf.VMessageLeave
+					serf.VDecode([]byte(m)[1:], &l)
+					subj = l.Node
+				}
+				x := cl.byName(subj)
+				if x == nil || !x.up() {
+					continue
+				}
+				for _, b := range cl.nodes {
+					if b.up() {
+						b.n.Delegate().NotifyMsg([]byte(m))
+					}
+				}
+			}
+		}
+		cl.settle()
 		for _, a := range cl.nodes {
 			for _, b := range cl.nodes {
 				if a.idx < b.idx && a.up() && b.up() && (a.view[b.name] == 1 || b.view[a.name] == 1) {
@@ -777,6 +806,52 @@ func (clusterModel) Exec(scenario string, hist []string) vc.BFSState {
 		cl.settle()
 		for _, k := range cl.nodes {
 			k.n.DrainEvents()
+		}
+		if clPre(scenario) {
+			// start from a formed, converged cluster: everybody joined n0, all join
+			// intents delivered, memberlist views complete, one round of push/pull
+			for i := 1; i < n; i++ {
+				if !cl.apply(fmt.Sprintf("join %d 0", i)) {
+					st.Err = "pre-join failed"
+					return
+				}
+			}
+			for _, a := range cl.nodes {
+				for _, b := range cl.nodes {
+					if a != b {
+						cl.learnAlive(a, b)
+					}
+				}
+			}
+			for round := 0; round < 2; round++ {
+				for _, a := range cl.nodes {
+					cl.gossip(a)
+				}
+				for _, a := range cl.nodes {
+					for _, m := range cl.sortedOutbox(a) {
+						for _, b := range cl.nodes {
+							if a != b {
+								b.n.Delegate().NotifyMsg([]byte(m))
+							}
+						}
+					}
+				}
+				cl.settle()
+			}
+			for _, a := range cl.nodes {
+				for _, b := range cl.nodes {
+					if a.idx < b.idx {
+						cl.pushPull(a, b, false)
+					}
+				}
+			}
+			for _, a := range cl.nodes {
+				cl.gossip(a)
+				a.outbox = map[string]bool{}
+			}
+			cl.settle()
+			cl.used = 0
+			cl.viol = nil
 		}
 		for _, a := range hist {
 			if !cl.apply(a) {
